@@ -6,7 +6,9 @@ mod probe;
 mod puppet;
 mod report;
 mod rng;
+mod run_sched;
 mod run_seq;
+mod sched;
 mod seq;
 mod tap;
 mod topo;
@@ -98,7 +100,12 @@ fn check(o: &Opts) -> i32 {
     match o.prop.as_str() {
         "C01" | "C02" | "C03" | "C04" | "C05" | "C07" | "C08" | "C09" | "C10" | "C11" | "C12" | "C17" => {
             engines.push("E1-seq");
+            run_seq::run_witnesses(o, &mut rep);
             run_seq::run(o, &mut rep);
+        },
+        "C18" | "C19" => {
+            engines.push("E4-sched");
+            run_sched::run(o, &mut rep);
         },
         p => {
             println!("INCONCLUSIVE property={} reason=no engine for this property yet", p);
@@ -289,6 +296,7 @@ fn replay(o: &Opts) -> i32 {
     let parts: Vec<&str> = id.split(':').collect();
     match parts.first().copied() {
         Some("E1") => run_seq::replay(o, &parts),
+        Some("E4") | Some("E4e") => run_sched::replay(o, &parts),
         _ => {
             eprintln!("unknown engine in case id {}", id);
             2
